@@ -677,8 +677,8 @@ pub fn property() -> Property {
         subs: vec![
             sub("serde/roundtrip", 15_000, 400_000, r_strategy, r_run),
             sub("serde/roundtrip-at-limit", 60, 400, l_strategy, l_run),
-            sub("serde/hostile-json", 60_000, 1_500_000, h_strategy, h_run),
-            sub("serde/hostile-bincode", 80_000, 2_000_000, b_strategy, b_run),
+            sub_isolated("serde/hostile-json", 60_000, 1_500_000, h_strategy, h_run),
+            sub_isolated("serde/hostile-bincode", 80_000, 2_000_000, b_strategy, b_run),
         ],
     }
 }
